@@ -37,6 +37,8 @@ let handle = function
     show_o (fun l -> String.concat "," (List.map hx l)) (c06_txt (txt ". 0 IN TXT x" @ bytes_of_hex h @ [n_of_int 10]))
   | ["hinfo"; q; h] -> show_o hx (c06_hinfo (n_of_int 0) (q = "q") (bytes_of_hex h))
   | ["txt1"; q; h] -> show_o hx (c06_hinfo (n_of_int 1) (q = "q") (bytes_of_hex h))
+  | ["uint"; w; h] -> show_o (fun x -> string_of_int (int_of_n x)) (c06_uint (n_of_int (int_of_string w)) (bytes_of_hex h))
+  | ["ts"; h] -> show_o (fun x -> string_of_int (int_of_n x)) (c06_ts (bytes_of_hex h))
   | ["nstext"; h] -> show_o (fun n -> hx (wire_of_labels n)) (c06_nstext (bytes_of_hex h))
   | "rec" :: k :: code :: cl :: ttl :: ow :: fs ->
     let fld (w : string) : fval =
